@@ -339,3 +339,59 @@ package connect
 //@     invariant owned(env.Data) && prefixes[0] == old(rest(r.reader))[0]
 //@     assigns view(env.Data), rest(r.reader)
 //@     decreases remaining
+
+// ---------------------------------------------------------------------------
+// compression.go
+// ---------------------------------------------------------------------------
+
+//@ func (*compressionPool).getCompressor(c, writer) (res, err)
+//@   tags C08, C01
+//@   requires c != nil
+//@   assigns owned(res)
+//@   ensures err == nil ==> res != nil && out(res) == [] && csink(res) == writer && frompool(res) == c.compressors && pooled(res)   // label: reset-before-use
+//@   ensures res != nil && typeis(res, "*bytes.Buffer") ==> !old(owned(res))
+//@   ensures !(res != nil && typeis(res, "*bytes.Buffer")) ==> owned(res) == old(owned(res))
+
+//@ func (*compressionPool).putCompressor(c, compressor) err
+//@   tags C08, C01
+//@   requires c != nil && compressor != nil && frompool(compressor) == c.compressors && pooled(compressor)
+//@   requires typeis(csink(compressor), "*bytes.Buffer") ==> csink(compressor) != nil && owned(csink(compressor))
+//@   assigns view(csink(compressor)), owned(compressor)
+//@   ensures typeis(old(csink(compressor)), "*bytes.Buffer") && err == nil ==> view(old(csink(compressor))) == old(view(csink(compressor))) ++ compBy(c.compressors, old(out(compressor)))   // label: flushes-compressed-bytes-to-sink
+//@   ensures owned(compressor) == old(owned(compressor))
+
+//@ func (*compressionPool).Compress(c, dst, src) res
+//@   tags C08, C01
+//@   requires c != nil && dst != nil && src != nil && dst != src && owned(dst) && owned(src)
+//@   assigns view(dst), view(src)
+//@   ensures res == nil ==> view(dst) == old(view(dst)) ++ compBy(c.compressors, old(view(src)))     // label: appends-compressed-source
+//@   ensures res != nil ==> asErr(res) == res && res.code != 0
+
+//@ func (*compressionPool).getDecompressor(c, reader) (res, err)
+//@   tags C08, C01, C07
+//@   requires c != nil && reader != nil
+//@   assigns owned(res), rest(res), termerr(res)
+//@   ensures err == nil ==> res != nil && frompool(res) == c.decompressors && termerr(res) != nil && pooled(res)
+//@   ensures err == nil && typeis(reader, "*bytes.Buffer") && decompOK(c.decompressors, view(reader)) ==> rest(res) == decompBy(c.decompressors, view(reader)) && termerr(res) == io.EOF   // label: reset-before-use
+//@   ensures err == nil && typeis(reader, "*bytes.Buffer") && !decompOK(c.decompressors, view(reader)) ==> termerr(res) != io.EOF
+//@   ensures res != nil && typeis(res, "*bytes.Buffer") ==> !old(owned(res))
+//@   ensures !(res != nil && typeis(res, "*bytes.Buffer")) ==> owned(res) == old(owned(res))
+//@   ensures res != nil ==> frompool(res) == c.decompressors && pooled(res)
+
+//@ func (*compressionPool).putDecompressor(c, decompressor) err
+//@   tags C08, C01, C07
+//@   requires c != nil && decompressor != nil && frompool(decompressor) == c.decompressors && pooled(decompressor)
+//@   assigns owned(decompressor)
+//@   ensures owned(decompressor) == old(owned(decompressor))
+
+// The sum bytesRead+discardedBytes is only printed in an error message.
+//@ func (*compressionPool).Decompress(c, dst, src, readMaxBytes) res
+//@   tags C08, C01, C07, C09
+//@   requires c != nil && dst != nil && src != nil && dst != src && owned(dst) && owned(src)
+//@   nosafety overflow
+//@   assigns view(dst)
+//@   ensures res == nil ==> decompOK(c.decompressors, view(src)) && view(dst) == old(view(dst)) ++ decompBy(c.decompressors, view(src))   // label: appends-decompressed-source
+//@   ensures res == nil && readMaxBytes > 0 ==> |decompBy(c.decompressors, view(src))| <= readMaxBytes          // label: success-implies-within-limit   // tags: C09
+//@   ensures readMaxBytes > 0 && decompOK(c.decompressors, view(src)) && |decompBy(c.decompressors, view(src))| > readMaxBytes ==> res != nil && codeOf(res) == 3   // label: over-limit-is-invalid-argument   // tags: C09
+//@   ensures readMaxBytes > 0 && readMaxBytes < 9223372036854775807 ==> |view(dst)| - |old(view(dst))| <= readMaxBytes + 1          // label: buffers-at-most-limit-plus-one   // tags: C09
+//@   ensures res != nil ==> asErr(res) == res && res.code != 0
